@@ -116,6 +116,16 @@ macro_rules! harness {
         #[allow(unused_variables, unused_mut, dead_code)]
         pub fn $name() $body
     };
+    // harness!(name, unwind, stub(path::of::callee, abstraction), { ... }): modular obligation -- under Kani the
+    // callee is replaced by the given abstraction (needs `stubbing=1` in the unit header, i.e. `-Z stubbing`);
+    // natively (replay) the real callee runs.
+    ($name:ident, $unwind:expr, stub($orig:path, $abs:path), $body:block) => {
+        #[cfg_attr(kani, kani::proof)]
+        #[cfg_attr(kani, kani::unwind($unwind))]
+        #[cfg_attr(kani, kani::stub($orig, $abs))]
+        #[allow(unused_variables, unused_mut, dead_code)]
+        pub fn $name() $body
+    };
 }
 
 /// reach!(cond): reachability witness (vacuity guard) — a Kani cover property per call site.
@@ -124,5 +134,19 @@ macro_rules! reach {
     ($c:expr) => {
         #[cfg(kani)]
         kani::cover!($c);
+    };
+}
+
+/// harness_cvc5!(name, unwind, { ... });  — the same, but CBMC hands the formula to the SMT solver cvc5
+/// (word-level floating point / division) instead of bit-blasting it for the SAT solver.  Use for obligations
+/// that compare two IEEE multiplications / divisions or integer remainders (minutes with SAT, seconds with SMT).
+#[allow(unused_macros)]
+macro_rules! harness_cvc5 {
+    ($name:ident, $unwind:expr, $body:block) => {
+        #[cfg_attr(kani, kani::proof)]
+        #[cfg_attr(kani, kani::unwind($unwind))]
+        #[cfg_attr(kani, kani::solver(cvc5))]
+        #[allow(unused_variables, unused_mut, dead_code)]
+        pub fn $name() $body
     };
 }
